@@ -218,6 +218,9 @@ def gen_tree(rng, depth, pool):
     n = rng.randint(0, 3)
     keys = rng.sample(TKEYS, n)
     ms = [(k, rng.random() < 0.3, gen_tree(rng, depth + 1, pool)) for k in keys]
+    if rng.random() < 0.2:        # key shortcuts next to the ordinary members: `@t: value` (string types of c04.TYPES)
+        ks = [(k, rng.random() < 0.3, gen_tree(rng, depth + 1, pool)) for k in rng.sample(['@t', '@q', '@qq', '@bs'], rng.randint(1, 2))]
+        return ('K', ms, ks, rng.choice(AP_FORMS), rng.random() < 0.2)
     return ('O', ms, rng.choice(AP_FORMS), rng.random() < 0.2)
 
 
@@ -242,6 +245,8 @@ def tree_text(t, indent, extra, comma):
         rules = extra + ([('minItems', str(t[2]))] if t[2] is not None else []) + ([('maxItems', str(t[3]))] if t[3] is not None else []) + ([('nullable', 'true')] if t[4] else [])
         lines = [pad + '  ' + tree_text(x, indent + 1, [], ',' if i + 1 < len(t[1]) else '') for i, x in enumerate(t[1])]
         return '[' + ann_of(rules) + '\n' + ''.join(l + '\n' for l in lines) + pad + ']' + comma
+    if t[0] == 'K':
+        t = ('O', list(t[1]) + list(t[2]), t[3], t[4])          # the shortcuts are written like members, their key bare
     rules = extra + ([('additionalProperties', t[2][0])] if t[2][0] is not None else []) + ([('nullable', 'true')] if t[3] else [])
     lines = [pad + '  ' + k + ': ' + tree_text(x, indent + 1, [('optional', 'true')] if o else [], ',' if i + 1 < len(t[1]) else '') for i, (k, o, x) in enumerate(t[1])]
     return '{' + ann_of(rules) + '\n' + ''.join(l + '\n' for l in lines) + pad + '}' + comma
@@ -265,6 +270,13 @@ def tree_tokens(t):
         out = ['A', str(len(t[1])), '-' if t[2] is None else str(t[2]), '-' if t[3] is None else str(t[3]), '1' if t[4] else '0']
         for x in t[1]:
             out += tree_tokens(x)
+        return out
+    if t[0] == 'K':
+        out = ['K', str(len(t[1])), str(len(t[2])), t[3][1], '1' if t[4] else '0']
+        for k, o, x in t[1]:
+            out += [hx(json.loads(k)), '1' if o else '0'] + tree_tokens(x)
+        for k, o, x in t[2]:
+            out += [hx(k[1:]), '1' if o else '0'] + tree_tokens(x)
         return out
     out = ['O', str(len(t[1])), t[2][1], '1' if t[3] else '0']
     for k, o, x in t[1]:
@@ -322,6 +334,7 @@ def canon_node(o):
     if t == 'object':
         ap = o.get('additionalProperties', True)
         apc = ('f' if ap is False else 'y' if ap is True else 'other' if not isinstance(ap, dict) else
+               'anyOf[' + ','.join(canon_node(x) for x in ap['anyOf']) + ']' if set(ap.keys()) == {'anyOf'} else
                't:%s' % ap['type'] if set(ap.keys()) == {'type'} else
                'null' if ap == {'enum': [None]} else 'array' if ap == {'type': 'array', 'items': {}} else
                'object' if ap == {'type': 'object', 'properties': {}, 'additionalProperties': False} else
